@@ -536,9 +536,15 @@ func ParseNameAddrPVal(h HdrT, buf []byte, offs int, pfrom *PFromBody) (int, Err
 					goto endOfHdr
 				}
 				return n, err
-			default:
-				// no other char allowed after a star
+			case ',', ';', '>':
+				// no other value or param allowed after a star
 				return i, ErrHdrBadChar
+			default:
+				// not a lone star (Contact: *), but a display name that
+				// starts with one (e.g. *67 <sip:a@b>): handle the
+				// current char as part of the name
+				pfrom.state = fbName
+				continue
 			}
 		}
 		i++
